@@ -22,7 +22,14 @@ errcli      the three real command lines (pybtex, pybtex-convert, pybtex-format)
             (--strict in every position, other / rejected / plug-in options, wrong argument counts, same input and
             output, several runs in one interpreter); the model is `cliMain` = save strict; error_code = 0; set_strict_mode(False);
             options; run; finally restore strict;
-fmtchars    the letters of a `format.name$` name part (BibTeXNameFormatError unreachable).
+fmtchars    the letters of a `format.name$` name part (BibTeXNameFormatError unreachable);
+errfilename PybtexError.get_filename / format_error with filename None / str / ANY byte string (the byte branch:
+            pybtex.io._decode_filename(..., errors='replace') = Model/ErrorsBytes.lean), str.encode('utf-8');
+errprim     the primitives of the rendering model one by one against the real thing: str.splitlines, repr, rstrip('\\r\\n'),
+            endswith('\\n'), NEWLINE.search, Scanner.get_error_context, LowLevelParser.get_error_context on EVERY parser state
+            over small texts (the IndexError points included).   (props/c16_ext.py)
+erreq       PybtexError.__eq__ / __hash__ on pairs of real exception objects (and other objects);
+errrender also takes `fnb`: the filename attribute is that byte string and the MODEL decodes it.
 """
 import contextlib
 import importlib
@@ -38,9 +45,10 @@ import ast
 
 import compat  # noqa: F401
 from props.base import corpus_for  # noqa: F401
+from props import c16_ext
 
 ID = 'C16'
-LEAN_MODULES = ['PybtexModel.Props.C16']
+LEAN_MODULES = ['PybtexModel.Props.C16', 'PybtexModel.Props.C16Bytes']
 THEOREMS = {
     'C16_render_total': 'UNDER Err.WF (a condition for TokenRequired only: parser state in range; next entry, ASSUMPTIONS) format_error is DEFINED for every error value of every class [the content]. Conjuncts 2-3 (= context lines ++ [prefix ++ str(error)], each prefixed by the file name) are [model wiring]: they restate the model function formatErrorLines; the shape is carried by the render_shape clause of the correspondence',
     'C16_render_total_other_classes': 'only TokenRequired carries a well-formedness condition (parser state in range); every other class renders unconditionally',
@@ -76,6 +84,19 @@ THEOREMS = {
     'C16_main_exit_status': 'main() without --strict is the non-strict run whatever strict and error_code were before: warnings in order then the fatal error; status 1 / 2 / 0 = the reference status of the input; a command line that is not accepted (wrong argument count, rejected option, unknown plug-in) never ends with status 0',
     'C16_main_history_independent': "main() neither depends on nor disturbs the caller's reporting state (repair 8c0015f): from ANY state outside a capture its stderr and exit status are those of the same command line in a fresh interpreter; afterwards strict is the caller's on every way out (options accepted or rejected, --help, unknown plug-in, wrong argument count, fatal error, --strict raise), no capture is open, error_code is 0 or 2; in a sequence of runs in one interpreter every run has the status of its own input",
     'C16_bst_run_end_partial': 'conjuncts 1-2 [content]: a finished BibTeX-engine run (C03 interpreter model, lazily parsed program) has a program that parses completely; a .bst syntax error is the C15 parser model\'s, of a listed class. Conjuncts 3-4 [model wiring]: "foreign ONLY at IErr.internal, unknown ONLY on fuel exhaustion" is the definition of the classifier bstRun (4 also excludes a parser error without pybtex counterpart). Nothing is said about real runs (see _neg): that is errmodes',
+    'C16_decode_encodeChar': 'for EVERY character c and byte string rest: bytes.decode("utf-8", "replace") of (c.encode("utf-8") + rest) is c followed by the decoding of rest (all four UTF-8 lengths, incl. the restricted second bytes after E0 / ED / F0 / F4); no hypothesis',
+    'C16_filename_bytes_roundtrip': 'for EVERY string s: s.encode("utf-8").decode("utf-8", "replace") = s, so an error whose filename attribute is the UTF-8 byte form of a name has the get_filename() and the format_error text of the error carrying the str name; no hypothesis',
+    'C16_decode_length': 'the replace-decoder yields at most one character per byte and at least one character for a non-empty byte string',
+    'C16_filename_bytes_total': 'UNDER Err.WF (TokenRequired parser state in range, as C16_render_total): with EVERY byte string as filename attribute, ill-formed UTF-8 included, get_filename() and format_error are defined, and a non-empty byte name decodes to a non-empty name (the "name: " prefix is not lost)',
+    'C16_filename_bytes_prefix': 'UNDER Err.WF, for an error of a class whose constructor takes a file name (plain classes, syntax errors, TokenRequired, AuxDataError) and EVERY NON-EMPTY byte string as that name: every line of format_error (context lines and message line) starts with the decoded name + ": "',
+    'C16_splitlines_lossless': 'str.splitlines as modelled, for EVERY text: with keepends the pieces concatenate to the text again; without it no piece contains a line separator',
+    'C16_context_lines_single': 'for every error value whose context is defined: each context line format_error puts before the message contains no line separator (it is ONE line and gets its own file-name prefix)',
+    'C16_eq_equivalence': 'PybtexError.__eq__ (str(self) == str(other)) is reflexive, symmetric, transitive, contains identity of values, and __hash__ is consistent with it, for all error values of all classes',
+    'C16_eq_ignores_location_neg': 'witness: an AuxDataError in a.aux line 3 with context and a PybtexError in b.bib are == although class, file name and format_error differ: == on captured lists cannot tell problems apart that differ in class or location',
+    'C16_decode_illformed_examples': 'kernel-evaluated instances of the maximal-subpart replacement rule of CPython (stray continuation byte, over-long lead, restricted second byte, truncated prefix before ASCII, surrogate, above U+10FFFF, prefix cut off by the end)',
+    'C16_fs_encoding_modelled': '[table check] the codec of sys.getfilesystemencoding() of the running interpreter (Gen/C16Tables.lean, regenerated on every run) is the UTF-8 the byte-file-name model decodes with',
+    'C16_constants_match_source': '[table check] the constants the rendering / reporting model hard-codes equal the literals read from the source on every run: default prefix of format_error / print_error, prefix and error_code value of report_error, error_type of PybtexSyntaxError / UndefinedMacro, the str.splitlines separators of the interpreter, the exit status of an escaped pybtex error (sys.exit(1) in CommandLine.__call__), the format letters of check_format_chars, the file-name template "{0}: {1}"',
+    'C16_repr_table_examples': '[table check] repr escapes what the regenerated str.isprintable table says outside Latin-1 (U+200B, U+FEFF, private use, unassigned, plane 14) and nothing else (letters, dashes, currency, CJK)',
     'C16_bst_run_foreign_neg': 'the recorded finding C16-bst-illformed-program: "a" #1 +, EXECUTE {cite$}, ITERATE {undefined} have no pybtex outcome (TypeError / AttributeError / KeyError in the Python code)',
 }
 RULE = ('errmodes also: every .bst run-time fault of a table x 2 databases, real styles and the 4 Python styles x every fault entry x 2 citation '
@@ -89,9 +110,13 @@ RULE = ('errmodes also: every .bst run-time fault of a table x 2 databases, real
         'errmodes: hand-made and randomly corrupted .bib/.aux/.bst/name/plugin inputs in the three modes and through CommandLine; '
         'non-trivial = history with a report inside or after a context / instance with context or file name / input with >=1 problem; '
         'distinct by case JSON')
-TRUSTED = ['str.splitlines separators, repr() of str (exact below U+0100 and on Unicode spaces, other code points assumed printable), '
-           'int formatting are modelled, not verified',
-           'byte file names are decoded by the harness (sys.getfilesystemencoding) before they reach the model',
+TRUSTED = ['str.splitlines, repr() of str, rstrip, NEWLINE.search are modelled by hand and compared with the interpreter function by function on '
+           'every run (errprim; repr / splitlines over every code point in the thorough tier); the non-printable table of repr and the '
+           'separators of splitlines are regenerated from the interpreter (Gen/C16Tables.lean); int formatting is modelled, not verified',
+           'byte file names: decoded by the MODEL (Model/ErrorsBytes.lean = bytes.decode("utf-8", "replace"), compared with '
+           'pybtex.io._decode_filename on every run, errfilename) in errrender / errfilename; only in real runs (errmodes / errcli) a byte '
+           'file name found on an exception object is still decoded by the harness; a file-system encoding other than UTF-8 stops the build '
+           '(C16_fs_encoding_modelled)',
            'stderr plumbing (pybtex.io.stderr), sys.exit and optparse are observed, not modelled',
            'the computation abstraction: the sequence of report_error calls of a run does not depend on the reporting mode '
            '(report_error returns nothing); proved of the .bib reader model (C16_bib_reader_mode_independent), trivial for the .bst parser '
@@ -106,6 +131,8 @@ ASSUMPTIONS = ['TokenRequired instances come from parser states in which get_err
                'error_code set by report_error OUTSIDE main() stays set until something resets it (C16_error_code_monotone); main() itself resets it (8c0015f)',
                '.bst programs are well-formed in the sense of the C03 model (no IErr.internal): otherwise recorded finding C16-bst-illformed-program',
                'entry types do not coincide with the name of a format_* helper of the Python style (@title, @url ...: legacy fall-back, see proposed_fixes/C16-3.md)',
+               'the file-system encoding of the running interpreter is UTF-8 (not assumed silently: C16_fs_encoding_modelled fails the build otherwise); '
+               'byte file names in other encodings are outside the model',
                'the tree carries proposed_fixes C16-1, C16-2, C20-1, C20-2 and C16-3 ... C16-7 (the model follows the fixed behaviour)']
 
 WARNING = 'WARNING: '
@@ -137,8 +164,8 @@ def _make_parser(kind, text, filename, start, lineno, pos):
     return p
 
 
-def build_error(spec, fn_bytes=False):
-    """errspec -> (exception object, function that moves the parse state on)."""
+def build_error(spec, fn_bytes=False, fnb=None):
+    """errspec -> (exception object, function that moves the parse state on).  `fnb`: the file name IS this byte string."""
     from pybtex import exceptions, scanner, auxfile, database
     from pybtex.bibtex import exceptions as bexc, names
     from pybtex.database import convert
@@ -149,6 +176,8 @@ def build_error(spec, fn_bytes=False):
     fn = spec.get('filename')
     if fn is not None and fn_bytes:
         fn = _fs_encode(fn)
+    if fnb is not None:
+        fn = bytes(fnb)
     later = lambda: None  # noqa: E731
     plain = {'PybtexError': exceptions.PybtexError, 'BibliographyDataError': database.BibliographyDataError,
              'BibTeXError': bexc.BibTeXError, 'ConvertError': convert.ConvertError}
@@ -788,7 +817,7 @@ def _cli_api(main, items, tmp, sanitize):
     with fresh_errors(True) as (errors, buf):
         os.chdir(tmp)
         try:
-            options, args = main.opt_parser.parse_args(list(argv))
+            options, args = main.opt_parser.parse_args(main.recognize_legacy_optons(list(argv)))   # as main() does
         except PybtexError as x:
             return [], None, x
         except SystemExit:
@@ -944,7 +973,7 @@ def impl(case):
         return {'with': _run_with(case), 'manual': _run_manual(case)}
     if op == 'errrender':
         try:
-            e, later = build_error(case['e'], case.get('fn_bytes', False))
+            e, later = build_error(case['e'], case.get('fn_bytes', False), case.get('fnb'))
         except BaseException as x:  # noqa
             return {'construct': _kind(x)}
         rec = render_record(e, case['prefix'])
@@ -960,6 +989,12 @@ def impl(case):
         return _run_cli(case)
     if op == 'errfree':
         return _run_free(case)
+    if op == 'errfilename':
+        return c16_ext.run_filename(case)
+    if op == 'errprim':
+        return c16_ext.run_prim(case)
+    if op == 'erreq':
+        return c16_ext.run_eq(case, build_error)
     if op == 'fmtchars':
         from pybtex.bibtex.names import NameFormat
         from pybtex.scanner import PybtexSyntaxError
@@ -1077,7 +1112,13 @@ def to_request(case):
             req['perr'] = api['perr']
         return req
     if case['op'] == 'errrender':
-        return {'op': 'errrender', 'e': case['e'], 'prefix': case['prefix']}
+        req = {'op': 'errrender', 'e': case['e'], 'prefix': case['prefix']}
+        # a byte file name reaches the MODEL as bytes (getFilenameB decodes it), no longer decoded by the harness
+        if case.get('fnb') is not None:
+            req['fnb'] = list(case['fnb'])
+        elif case.get('fn_bytes') and case['e'].get('filename') is not None:
+            req['fnb'] = list(_fs_encode(case['e']['filename']))
+        return req
     return case
 
 
@@ -1227,6 +1268,10 @@ def oracle(case, impl_out, reply):
         return _oracle_modes(case, impl_out, spec)
     if op == 'errcli':
         return _oracle_cli(case, impl_out, spec, reply)
+    if op == 'errfilename':
+        return c16_ext.oracle_filename(case, impl_out, spec)
+    if op == 'errprim':
+        return fails          # no clause of the property talks about a primitive: correspondence only
     if op == 'errfree':
         # judged inside the quantifier of the property only (contexts left innermost first); what the module does in another order
         # is tied to the model by the correspondence, not judged
@@ -1425,6 +1470,20 @@ def buckets(case, impl_out):
     if op == 'errcli':
         st = [r['status'] for r in impl_out.get('runs', [])] if isinstance(impl_out, dict) else []
         return ['errcli:%s:runs=%d:status=%s' % (case['prog'], len(case['runs']), ','.join(str(x) for x in st))]
+    if op == 'erreq':
+        return ['erreq:%s' % (impl_out.get('eq') if isinstance(impl_out, dict) else '?')]
+    if op == 'errprim':
+        return ['errprim:' + case['f'] + (':fail' if isinstance(impl_out, dict) and 'fail' in impl_out else '')]
+    if op == 'errfilename':
+        fn = case['fn']
+        kind = 'none' if fn is None else 'str' if 's' in fn else 'bytes'
+        if kind == 'bytes':
+            try:
+                bytes(fn['b']).decode('utf-8')
+                kind += ':well-formed'
+            except UnicodeDecodeError:
+                kind += ':ill-formed'
+        return ['errfilename:' + kind]
     if op == 'errfree':
         return ['errfree:lifo' if all(o['o'] != 'exitk' or o['k'] == 0 for o in case['ops']) else 'errfree:non-lifo']
     return [op]
@@ -1442,6 +1501,8 @@ def nontrivial(case, impl_out):
         return False
     if op == 'errrender':
         return isinstance(impl_out, dict) and bool(impl_out.get('context') or impl_out.get('filename'))
+    if op == 'errfilename':
+        return case['fn'] is not None and bool(case['fn'].get('b') or case['fn'].get('s'))
     if op == 'errmodes':
         return isinstance(impl_out, dict) and 'capture' in impl_out and (
             bool(impl_out['capture']['collected']) or impl_out['capture']['raised'] is not None)
@@ -1472,6 +1533,8 @@ def valid_case(case):
         return all(o['o'] != 'report' or 0 <= o['k'] < len(case['errs']) for o in case['ops'])
     if op == 'errrender':
         e = case['e']
+        if case.get('fnb') is not None and not (isinstance(case['fnb'], list) and all(isinstance(b, int) and 0 <= b < 256 for b in case['fnb'])):
+            return False
         if e['cls'] == 'TokenRequired':
             return _wf_info(e['info'])
         return True
@@ -1507,6 +1570,8 @@ def valid_case(case):
         return True
     if op == 'fmtchars':
         return bool(case['value']) and case['value'].isascii() and case['value'].isalpha()
+    if op in ('errfilename', 'errprim', 'erreq'):
+        return c16_ext.valid_case(case)
     return True
 
 
@@ -1738,6 +1803,9 @@ GOOD_BIB = '''@string{jan = "January"}
 
 MODE_CASES = [
     # (kind, text, expected [(class, line)] + optional FATAL)
+    # braces nested deeper than LowLevelParser.parse_string allows (max_level=100): a located syntax error, then recovery
+    ('bib', '@misc{k, title = ' + '{' * 102 + 'x' + '}' * 102 + '}\n@misc{ok, title = {fine}}\n', [['PybtexSyntaxError', 1]]),
+    ('bib', '@misc{a, note = {n}}\n@misc{k,\n title = ' + '{' * 102 + '}' * 102 + '}', [['PybtexSyntaxError', 3]]),
     ('bib', '@article{k, title = foo}', [['UndefinedMacro', 1]]),
     ('bib', '@article{k,\n title = {a},\n TITLE = {b},\n year = 1}', [['DuplicateField', None]]),
     ('bib', '@article{k, title={a}}\n@book{k, title={b}}\n@misc{K, title={c}}', [['BibliographyDataError', None], ['BibliographyDataError', None]]),
@@ -2245,7 +2313,9 @@ def _cli_cases(tier, rng):
             fs = [['doc.aux', aux], ['db.bib', text], ['unsrt.bst', warn_bst]]
             d = A('doc.aux')
             for run in ([d], [S, d], [A('doc')], [['other', '-l', 'python'], d], [S, ['other', '-l', 'python'], d], [['other', '--terse'], d, S],
-                        [], [d, d], [['other', '-l', 'python'], ['other', '-b', 'html'], d]):
+                        [], [d, d], [['other', '-l', 'python'], ['other', '-b', 'html'], d],
+                        # legacy long options with one dash (recognize_legacy_optons)
+                        [['other', '-terse'], d], [['other', '-min-crossrefs=3'], d, S], [['info', '-version']], [['info', '-help'], d]):
                 cli('pybtex', [run], fs)
     fs = [['doc.aux', AUX_DOCS[0][1]], ['db.bib', good]]
     for f in BST_FAULTS[:24]:
@@ -2336,6 +2406,11 @@ def gen_cases(tier, rng, info):
     clis = _cli_cases(tier, rng)
     readers, rcounts = _reader_cases(tier, rng)
     cases += engine + formats + clis + readers
+    fnames, n_fn_exh = c16_ext.filename_cases(tier, rng)
+    brender = c16_ext.bytes_render_cases(tier, rng)
+    prims = c16_ext.prim_cases(tier, rng)
+    eqs = c16_ext.eq_cases(tier, rng)
+    cases += fnames + brender + prims + eqs
     for _ in range(300 if quick else 6000):
         cases.append(_random_free(rng))
     info['exhaustive'] = True
@@ -2348,9 +2423,16 @@ def gen_cases(tier, rng, info):
                      'other formats and entry points: %d (every truncation of a YAML / BibTeXML document, hand-made structural faults, convert / '
                      'format_database / make_bibliography); command lines: %d (pybtex, pybtex-convert, pybtex-format x argv patterns incl. --strict '
                      'in every position, wrong argument counts, rejected options, unknown plug-ins, same input and output, several runs in one '
-                     'interpreter); inputs of the C10 / C15 / C20 generators with the expected problems computed from the reader models: %r' % (
+                     'interpreter); inputs of the C10 / C15 / C20 generators with the expected problems computed from the reader models: %r; errfilename: %d byte strings = every string of '
+                     '<=2 (quick; 3 thorough) bytes over the %d class boundaries of UTF-8, <=3 over %d, <=4 over %d of them, + str names, + random; '
+                     'errrender with ill-formed byte file names: %d; errprim: %d = splitlines of every text of <=3 over the 12 separator candidates and '
+                     'of every code point in blocks of 1024 (quick: below U+20000 + 26 blocks above), repr of the same blocks and of every text of <=3 '
+                     'over the quote / escape alphabet, rstrip / endswith / NEWLINE.search on every text of <=4, both get_error_context functions on '
+                     'EVERY (lineno | start, pos) of every text of <=3 over the tier alphabet, out-of-range states included; erreq: %d = all pairs of a pool of '
+                     '%d error objects (made to collide in str) + other objects' % (
                          len(hs), n_hist, ALPHABET, len(grid), 15, len(tr), len(fm), letters, len(MODE_CASES),
-                         len(fh), n_free, len(engine), len(BST_FAULTS), len(formats), len(clis), rcounts))
+                         len(fh), n_free, len(engine), len(BST_FAULTS), len(formats), len(clis), rcounts,
+                         n_fn_exh, len(c16_ext.BYTES_FULL), len(c16_ext.BYTES_MID), len(c16_ext.BYTES_SMALL), len(brender), len(prims), len(eqs), len(c16_ext.EQ_POOL)))
     n_rh, n_rr, n_rm = (1500, 4000, 500) if quick else (30000, 60000, 5000)
     for _ in range(n_rh):
         cases.append(_random_history(rng))
@@ -2380,10 +2462,16 @@ LEVEL_TEXT = ('Machine-checked proofs (Lean 4) over an executable model of pybte
               'main() with its options (--strict, rejected options, argument count) is modelled and proved (strict option, exit status from any '
               'state) and the three real command lines are driven in-process; the engines (BibTeX and Python), the YAML / BibTeXML readers, '
               'convert / format_database / make_bibliography are run in the three modes; the expected problems of the inputs of the C10 / C15 / '
-              'C20 generators and of the BibTeX-engine runs are computed from the reader / interpreter models, not from the capture run.')
+              'C20 generators and of the BibTeX-engine runs are computed from the reader / interpreter models, not from the capture run.  '
+              'Extension: PybtexError.get_filename with its byte-string branch (pybtex.io._decode_filename, UTF-8 with replacement) is inside the '
+              'model: text names survive the byte form exactly (round trip for every string) and rendering stays total for every byte string; '
+              'the string primitives of the rendering model and both get_error_context functions are compared function by function (errprim), '
+              'repr is exact over all of Unicode from the regenerated isprintable table, and the constants of the model are checked against '
+              'literals read from the source on every run (C16_constants_match_source).')
 LEVEL_NOTE = ('Trusted: Lean kernel; axioms propext/Classical.choice/Quot.sound only; the hand-written model corresponds to the code only as '
-              'far as the differential check explores.  Modelled, not verified: str.splitlines separators, repr() of str (exact below U+0100 '
-              'and on Unicode spaces), int formatting, decoding of byte file names (done by the harness); stderr plumbing, sys.exit and optparse '
+              'far as the differential check explores.  Modelled by hand and compared function by function with the interpreter (errprim), not verified: str.splitlines, repr() of str '
+              '(tables regenerated), rstrip, NEWLINE.search; int formatting; UTF-8 decoding of byte file names is modelled (errfilename), other '
+              'file-system encodings are outside the model (the build stops); stderr plumbing, sys.exit and optparse '
               'are observed only.  A computation is abstracted as a list of reports + optional fatal error: that the parsers make the same '
               'report_error calls in every mode is checked on real inputs (hand-made + randomly corrupted .bib/.aux/.bst), not proved of the '
               'parsers (no parser model here; C10/C15/C20 own those).  TokenRequired rendering is proved for parser states in range '
